@@ -11,22 +11,22 @@ pub enum VersionError {
     Std(StdError), NotFound, WrongContract { expected: String, found: String }, WrongVersion { expected: String, found: String },
 }
 #[verifier::external_body]
-pub fn set_contract_version(s: &mut Storage, name: impl IntoStr, version: impl IntoStr) -> (r: StdResult<()>)
+pub fn set_contract_version(store: &mut Storage, name: impl IntoStr, version: impl IntoStr) -> (r: StdResult<()>)
     ensures
         r is Ok,
-        final(s)@.version is Some,
-        final(s)@.version->Some_0.contract@ == name.sview(),
-        final(s)@.version->Some_0.version@ == version.sview(),
-        final(s)@ == (StoreView { version: final(s)@.version, ..old(s)@ }),
+        final(store)@.version is Some,
+        final(store)@.version->Some_0.contract@ == name.sview(),
+        final(store)@.version->Some_0.version@ == version.sview(),
+        final(store)@ == (StoreView { version: final(store)@.version, ..old(store)@ }),
 { unimplemented!() }
 #[verifier::external_body]
-pub fn get_contract_version(s: &Storage) -> (r: StdResult<ContractVersion>)
-    ensures match r { Ok(v) => s@.version == Some(v), Err(_) => s@.version is None }
+pub fn get_contract_version(store: &Storage) -> (r: StdResult<ContractVersion>)
+    ensures match r { Ok(v) => store@.version == Some(v), Err(_) => store@.version is None }
 { unimplemented!() }
 /// lib.rs `assert_contract_version`: NotFound / WrongContract / WrongVersion
 #[verifier::external_body]
-pub fn assert_contract_version(s: &Storage, expected_contract: &str, expected_version: &str) -> (r: Result<(), VersionError>)
-    ensures r is Ok <==> (s@.version is Some && s@.version->Some_0.contract@ == expected_contract@
-        && s@.version->Some_0.version@ == expected_version@)
+pub fn assert_contract_version(storage: &Storage, expected_contract: &str, expected_version: &str) -> (r: Result<(), VersionError>)
+    ensures r is Ok <==> (storage@.version is Some && storage@.version->Some_0.contract@ == expected_contract@
+        && storage@.version->Some_0.version@ == expected_version@)
 { unimplemented!() }
 }
